@@ -312,7 +312,10 @@ func check(propID, tier string) int {
 		f.tapeLen[0] = len(plan.Tape) + len(plan.Input)
 		min := plan
 		minimised++
-		if len(plan.Case) == 0 && minimised <= 8 {
+		if f.known != nil {
+			// a listed finding is reported with the plan as found: no search is spent on it again
+			minimised--
+		} else if len(plan.Case) == 0 && minimised <= 8 {
 			// (beyond eight classes in one run the remaining ones are reported with their
 			// first failing plan as found; they replay all the same)
 			min, f.minEvals = minimise(ev, plan, class, minBudget)
